@@ -280,6 +280,44 @@ def run(rep, ctx):
                      "%s: suffix reader built only on the path where sufheadcheck(&SR) returned 0" % g_.name)
 
     # ---- P1 ---------------------------------------------------------------------------
+    # ---- B2: writes into the suffix table (scratch vector sized from the header) -------------------------
+    b2 = rep.rule("C14.B2", "RANGE", "bulk writes into the suffix value table are bounded by the space left up to table + tablen", floor=4)
+
+    def txt(n):
+        return render(n).replace(" ", "").replace("this->", "")
+    asg = {}
+    for n in gsr.walk():
+        if n["k"] == "BinaryOperator" and n.get("op") == "=":
+            asg.setdefault(txt(kids(n)[0]), []).append(n)
+    s_init = [n for n in asg.get("s", []) if txt(kids(n)[1]) == "SR.table"]
+    se_init = [n for n in asg.get("se", []) if txt(kids(n)[1]) in ("s+SR.h.tablen", "SR.table+SR.h.tablen")]
+    okb = len(s_init) == 1 and len(se_init) == 1 and gsr.cfg.before(s_init[0], se_init[0]) and len(asg.get("se", [])) == 1
+    b2.check(okb, "gsufread|end-pointer", short_loc(gsr.loc), "s = table, se = s + tablen (assigned once)")
+    tab_fgets = [c for c in gsr.walk() if c["k"] == "CallExpr" and (c.get("callee") or "").split("::")[-1] == "fgets" and txt(call_args(c)[0]) == "s"]
+    if not tab_fgets:
+        raise AnalysisBroken("C14.B2: no fgets into the table cursor")
+    for i_, c in enumerate(tab_fgets):
+        nn = txt(call_args(c)[1])
+        b2.check(nn in ("se-s", "(int)(se-s)") and bool(se_init) and gsr.cfg.before(se_init[0], c), "gsufread|fgets#%d" % (i_ + 1), short_loc(c.get("l")),
+                 "a table line is read with the bound se - s (the space left)",
+                 "fgets(s, %s, f): the bound is not the space left in the table (se - s): a file whose table lines add up to more than the stated tablen writes past the scratch buffer" % render(call_args(c)[1]))
+    adv = [n for n in gsr.walk() if n["k"] == "CompoundAssignOperator" and n.get("op") == "+=" and txt(kids(n)[0]) == "s"]
+    b2.check(all(txt(kids(n)[1]) == "strlen(s)" for n in adv) and bool(adv), "gsufread|advance", short_loc(gsr.loc), "the cursor advances by the length just read")
+    mc = [c for c in gsr.walk() if c["k"] == "CallExpr" and (c.get("callee") or "").split("::")[-1] == "memcpy" and txt(call_args(c)[0]) == "s"]
+    okm = len(mc) == 1 and txt(call_args(mc[0])[2]) == "L"
+    if okm:
+        fa = [(txt(gsr.nodes[cid]), pol) for cid, pol in gsr.cfg.facts_at(mc[0])]
+        okm = any(("L>=(size_t)(se-s)" in t or "L>=(unsignedlong)(se-s)" in t or "L>=se-s" in t.replace("(size_t)", "").replace("(", "").replace(")", "")) and pol is False for t, pol in fa) or \
+            any("L>=" in t and "se-s" in t.replace("(", "").replace(")", "") and "||" in t and pol is False for t, pol in fa)
+    b2.check(okm, "gsufread|last-line", short_loc(gsr.loc), "the last table line is copied only if its length is below se - s")
+    fr = [c for c in bsr.walk() if c["k"] == "CallExpr" and (c.get("callee") or "").split("::")[-1] == "fread" and txt(call_args(c)[0]) == "SR.table"]
+    b2.check(len(fr) == 1 and txt(call_args(fr[0])[1]).replace("(size_t)", "") in ("SR.h.tablen",) and txt(call_args(fr[0])[2]) == "1", "bsufread|table", short_loc(bsr.loc),
+             "the binary reader reads exactly tablen bytes into the table")
+    rz = [c for c in shc.walk() if c["k"] == "CXXMemberCallExpr" and (c.get("callee") or "").endswith("::resize")]
+    tb = [n for n in shc.walk() if n["k"] == "BinaryOperator" and n.get("op") == "=" and txt(kids(n)[0]).endswith("->table")]
+    okz = len(rz) == 1 and len(tb) == 1 and "tablen" in txt(call_args(rz[0])[0]) and "2*(size_t)sr->h.namelen" in txt(call_args(rz[0])[0]) and txt(kids(tb[0])[1]) == "sr->name+sr->h.namelen"
+    b2.check(okz, "sufheadcheck|capacity", short_loc(shc.loc), "scratch = tablen + 2*namelen + 6 bytes, table starts namelen bytes in: at least tablen bytes remain")
+
     # ---- F1: file text never becomes a printf format -------------------------------------------------
     f1 = rep.rule("C14.F1", "WHO", "the error formatter (vsnprintf) receives literal formats only; text read from the file is passed as an argument, and the conversions match the arguments", floor=8)
     # frozen exception, read on the pinned tree: CheckReader's last branch is reached only for result codes other than OK / Early_EOF / Bad_Line, i.e. for
